@@ -115,6 +115,31 @@ def run(chk, F, G_):
            "leaves symbolic analysis reported as supported", "%s:%s" % (vl["file"], vl["line"]))
     rate = any(c.get("name") == "isRateDisallowedInSymbolic" for c in calls(vl["body"]))
     chk.ob(rid, "invariant|rates", rate, "visitLocation does not inspect clock rates", "%s:%s" % (vl["file"], vl["line"]))
+    # the rate check must be reached for every non-empty invariant: an exemption (hybrid clocks) belongs to the
+    # single rate atom, not to the invariant as a whole (`h' == 3 && x' == 2`)
+    early = []
+    body = vl["body"].get("s", []) if vl["body"].get("k") == "block" else []
+    for st in body:
+        if any(c.get("name") == "isRateDisallowedInSymbolic" for c in calls(st)):
+            break
+        if st.get("k") == "if" and any(x.get("k") == "return" for x in walk(st.get("then"))):
+            cond = st["c"]
+            atoms = []
+
+            def split(e):
+                if e.get("k") == "bin" and e.get("op") == "||":
+                    split(e["lhs"])
+                    split(e["rhs"])
+                else:
+                    atoms.append(e)
+            split(cond)
+            for a in atoms:
+                if not (a.get("k") == "call" and a.get("name") == "empty"):
+                    early.append(short(a)[:60])
+    chk.ob(rid, "invariant|rates|no-early-exit", rate and not early,
+           "FeatureChecker::visitLocation returns before the rate check when `%s` holds for the invariant as a whole: "
+           "a rate of an ordinary clock in the same invariant (`h' == 3 && x' == 2`) is never looked at and symbolic "
+           "analysis stays reported as supported" % "`, `".join(early), "%s:%s" % (vl["file"], vl["line"]))
     rd = F.fn(FC + "::isRateDisallowedInSymbolic")
     rec_and = False
     for n in walk(rd["body"]):
